@@ -1419,7 +1419,7 @@ def native_forwarding(ctx, rule, fl, select, floor=1):
     return n_sel
 
 
-def accessor_agreement(ctx, rule, v, struct, setfmt, getfmt, table):
+def accessor_agreement(ctx, rule, v, struct, setfmt, getfmt, table, null_default=None):
     """attribute accessors: `set<X>` stores parameter i into field F of the attribute object and nothing else of the object, and
     `get<X>` hands out that same field F through out-parameter i.  table: X -> [(param index, field)].  A setter that lands in a
     sibling's field compiles and is invisible to every test that does not read the attribute back."""
@@ -1442,6 +1442,32 @@ def accessor_agreement(ctx, rule, v, struct, setfmt, getfmt, table):
                 (lambda l: l is not None and l.op == 'load' and g.field(l) == struct + '.' + fld)(g.get(g.strip(o.ops[0]))) for o in outs)
         ctx.ob(rule, '%s reads %s' % (getfmt % x, ', '.join(f for _i, f in pairs)), okg,
                'the getter returns the field(s) the setter wrote', loc=g.loc)
+        if null_default:
+            # the object accessed is the one passed in; the global default object stands in exactly when NULL was passed
+            from .ir import EdgePoint
+            for fn_, accs in ((s, sts), (g, [l for l in g.order if l.op == 'load' and g.field(l).startswith(struct + '.') and
+                                            g.field(l).split('.', 1)[1] in [f_ for _i, f_ in pairs]])):
+                okobj = bool(accs)
+                for acc in accs:
+                    addr = acc.ops[1] if acc.op == 'store' else acc.ops[0]
+                    r = fn_.ap(addr).root
+                    ri = fn_.get(fn_.strip(r)) if isinstance(r, str) else None
+                    if isinstance(r, str) and fn_.strip(r) == 'a0':
+                        continue
+                    if ri is None or ri.op != 'phi':
+                        okobj = False
+                        continue
+                    nts = [t for t in null_tests(fn_, 'a0') if t[1] != t[2]]
+                    for val, b in ri.d['incoming']:
+                        ep = EdgePoint(fn_, b, ri.block.id)
+                        if isinstance(val, str) and fn_.strip(val) == 'a0':
+                            okobj = okobj and any(fn_.edge_dominates(br.block.id, nn, ep) for br, nn, nl in nts)
+                        elif isinstance(fn_.ap(val).root, dict) and fn_.ap(val).root.get('g') == null_default:
+                            okobj = okobj and any(fn_.edge_dominates(br.block.id, nl, ep) for br, nn, nl in nts)
+                        else:
+                            okobj = False
+                ctx.ob(rule, '%s works on the object it was given (%s only for NULL)' % (fn_.name, null_default), okobj,
+                       'attr != NULL: that object; attr == NULL: the process-wide default object', loc=fn_.loc)
 
 
 def sleep_container_init_complete(ctx, rule, fl, kind):
@@ -1451,7 +1477,21 @@ def sleep_container_init_complete(ctx, rule, fl, kind):
     initialiser-completeness rule does not see these reads."""
     names = {'queue': ('myth_sleep_queue_init', ['myth_sleep_queue_enq', 'myth_sleep_queue_deq']),
              'stack': ('myth_sleep_stack_init', ['myth_sleep_stack_push', 'myth_sleep_stack_pop'])}[kind]
-    v = ctx.view('myth_if_native.c', roots=[names[0]] + names[1], stops=SPIN_STOPS, flavour=fl)
+    v = ctx.view('myth_if_native.c', roots=[names[0]] + names[1], stops=SPIN_STOPS + ('myth_spin_init_body',), flavour=fl)
     n = init_covers(ctx, rule, v, names[0], names[1], 'sleep ' + kind)
+    # a lock embedded in the container that the operations take must be initialised by the container's initialiser as well
+    ini = ctx.need_fn(v, names[0])
+    locked = set()
+    for un in names[1]:
+        u = ctx.need_fn(v, un)
+        for c in u.calls():
+            if c.callee in (SPIN_LOCK, SPIN_TRYLOCK) and same_value(u, u.ap(c.args[0]).root, 'a0') and u.ap(c.args[0]).fields:
+                locked.add(u.ap(c.args[0]).fields[-1])
+    inited = set(ini.ap(c.args[0]).fields[-1] for c in ini.calls() if c.callee == 'myth_spin_init_body' and
+                 same_value(ini, ini.ap(c.args[0]).root, 'a0') and ini.ap(c.args[0]).fields)
+    for fld in sorted(locked):
+        ctx.ob(rule, '%s initialises the lock %s its operations take' % (names[0], fld.split('.')[-1]), fld in inited,
+               'a lock word left as the previous owner of the memory wrote it can read "held": the first insertion spins forever',
+               loc=ini.loc)
     ctx.ob(rule, 'sleep %s: fields read by insert / remove enumerated' % kind, n >= (2 if kind == 'queue' else 1),
            'read set of the container operations', loc='src/myth_sleep_queue_func.h', detail=str(n))
